@@ -32,6 +32,7 @@ ASSUMPTIONS = [
 ]
 
 ROOT, O1, O2, H, A1, A2, OR1, OR2, A3 = 0xA0, 0xB1, 0xB2, 0xB3, 0x1111, 0x2222, 0x3333, 0x4444, 0x5555
+OB = 0xB4  # observer that returns on two different paths depending on its calldata word
 OUT = 0x400
 
 
@@ -49,6 +50,11 @@ def observer1():
     return ["CALLER", "PUSH0", "MSTORE", "ORIGIN", ("push", 32), "MSTORE",
             ("push", 64), ("push", 64), "PUSH0", "PUSH0", "PUSH0", ("push", O2), ("push", 0xFFFF), "CALL", "POP",
             ("push", 128), "PUSH0", "RETURN"]
+
+
+def observer_branchy():
+    """returns (CALLER, ORIGIN) -- on one of two paths, chosen by the calldata word (so a symbolic word makes the callee return twice)"""
+    return ["PUSH0", "CALLDATALOAD", ("ref", "alt"), "JUMPI"] + observer2() + [("label", "alt")] + observer2()
 
 
 def observer_init():
@@ -83,7 +89,7 @@ class Prog:
 X = ["PUSH0", "CALLDATALOAD"]
 Y = [("push", 32), "CALLDATALOAD"]
 
-PRANK_LETTERS = ["prank(a)", "prank(a,o)", "start(a)", "start(a,o)", "stop", "prank(x)", "call", "static", "create", "cheat", "helper"]
+PRANK_LETTERS = ["prank(a)", "prank(a,o)", "start(a)", "start(a,o)", "stop", "prank(x)", "call", "static", "create", "cheat", "helper", "branchy"]
 
 
 def emit_prank_letter(p, l, k):
@@ -112,6 +118,11 @@ def emit_prank_letter(p, l, k):
         p.items += [("push", 64), "PUSH0", ("push", 0x200), "DUP4", "EXTCODECOPY", "ISZERO", "ISZERO"]
         p.out_top()
         p.out_from_mem(0x200, 2)
+    elif l == "branchy":
+        # forward x: the callee returns on two paths, and each resumes this frame with its own copy of the prank state
+        p.items += X + [("push", 0x1E0), "MSTORE", ("push", 64), ("push", 0x200), ("push", 32), ("push", 0x1E0), "PUSH0", ("push", OB), ("push", 0xFFFF), "CALL"]
+        p.out_top()
+        p.out_from_mem(0x200, 2)
     elif l == "cheat":
         p.items += e2e.vm("deal(address,uint256)", [("push", 0x99)], [("push", 1)])
     elif l == "helper":
@@ -128,6 +139,7 @@ def base_accounts(root_code):
         hex(O1): {"code": asm.assemble(observer1()).hex(), "balance": 0},
         hex(O2): {"code": asm.assemble(observer2()).hex(), "balance": 0},
         hex(H): {"code": asm.assemble(helper()).hex(), "balance": 0},
+        hex(OB): {"code": asm.assemble(observer_branchy()).hex(), "balance": 0},
     }
 
 
@@ -146,8 +158,8 @@ PGRID = [{"x": v} for v in (0, A1, ROOT, O1, 2**160 + A1)]
 
 def useful(seq):
     """sequences with at least one observation after a prank-family letter"""
-    obs = [i for i, l in enumerate(seq) if l in ("call", "static", "create", "helper")]
-    pr = [i for i, l in enumerate(seq) if l not in ("call", "static", "create", "helper", "cheat")]
+    obs = [i for i, l in enumerate(seq) if l in ("call", "static", "create", "helper", "branchy")]
+    pr = [i for i, l in enumerate(seq) if l not in ("call", "static", "create", "helper", "cheat", "branchy")]
     return bool(obs) and bool(pr) and min(pr) < max(obs)
 
 
@@ -187,9 +199,12 @@ SLOT = [("push", 5)]
 ETCH_CODE = bytes.fromhex("602a5f5260205ff3")  # returns the word 0x2a
 
 
+ALIAS = [("push", 0x1C0), "MLOAD"]  # where the fresh address a = svm.createAddress("a") is kept
+
+
 def cheat_items(name, v, target):
     val = VALS[v]
-    tgt = [("push", target)]
+    tgt = [("push", target)] if target != "x" else ALIAS  # "x": a fresh symbolic address that the path condition pins to T1
     if name == "deal":
         return e2e.vm("deal(address,uint256)", tgt, val)
     if name == "store":
@@ -203,6 +218,11 @@ def cheat_items(name, v, target):
 
 def read_all(p, where):
     """observe everything from the root frame and through the getters of both accounts"""
+    if where == "alias":
+        p.items += e2e.vm("load(address,bytes32)", ALIAS, SLOT, retsize=32, mem=0x80)
+        p.out_from_mem(0x80, 1)
+        p.items += ALIAS + ["BALANCE"]
+        p.out_top()
     for op in ("TIMESTAMP", "NUMBER", "BASEFEE", "CHAINID", "COINBASE", "DIFFICULTY", "SELFBALANCE"):
         p.items += [op]
         p.out_top()
@@ -220,6 +240,10 @@ def state_spec(name, v, target, nested):
     p = Prog()
     accounts = {}
     ci = cheat_items(name, v, target)
+    if target == "x":
+        # a = svm.createAddress(""); vm.assume(a == T1)
+        p.items += e2e.svm("createAddress(string)", [("push", 32)], retsize=32, mem=0x80, pop=True) + [("push", 0x80), "MLOAD", ("push", 0x1C0), "MSTORE"]
+        p.items += e2e.vm("assume(bool)", ALIAS + [("push", T1), "EQ"])
     if nested:
         accounts[hex(H)] = {"code": asm.assemble(["PUSH0", "CALLDATALOAD", "PUSH0", "MSTORE"] + setter_frame(ci)).hex(), "balance": 0}
         # forward x to the helper
@@ -227,13 +251,16 @@ def state_spec(name, v, target, nested):
         p.out_top()
     else:
         p.items += ci
-    read_all(p, None)
+    read_all(p, "alias" if target == "x" else None)
     accounts.update({
         hex(ROOT): {"code": p.finish().hex(), "balance": 10},
         hex(T1): {"code": asm.assemble(getter()).hex(), "balance": 3},
         hex(T2): {"code": asm.assemble(getter()).hex(), "balance": 4},
     })
-    return {"accounts": accounts, "target": ROOT, "caller": 0xE0A, "origin": 0xE0B, "value": 0, "calldata": [["sym", "x", 32]], "options": {}, "cheats": True}
+    spec = {"accounts": accounts, "target": ROOT, "caller": 0xE0A, "origin": 0xE0B, "value": 0, "calldata": [["sym", "x", 32]], "options": {}, "cheats": True}
+    if target == "x":
+        spec["tape"] = [["sym", "t0"]]
+    return spec
 
 
 def etch_spec(target_exists):
@@ -269,8 +296,8 @@ def state_cases():
         for v in VALS:
             if name == "deal" and v in ("max", "big"):
                 continue  # balances above 2^128 are outside halmos's documented model (it stops with an internal error: fail-safe)
-            for target in ((T1, T2) if name in ("deal", "store") else (T1,)):
-                for nested in (False, True):
+            for target in ((T1, T2, "x") if name in ("deal", "store") else (T1,)):
+                for nested in ((False, True) if target != "x" else (False,)):
                     out.append({"kind": "state", "name": name, "v": v, "target": target, "nested": nested})
     out.append({"kind": "etch", "exists": True})
     out.append({"kind": "etch", "exists": False})
@@ -514,6 +541,17 @@ def run_prog(acc, spec, grid, name, case):
     except Exception as e:
         acc.violation(f"crash:{name}", f"{name}: halmos raised {type(e).__name__}: {e}", case)
         return
+    if spec.get("tape"):
+        # one fresh address symbol, pinned to T1 by vm.assume: the tape supplies T1 and the symbol takes that value
+        fresh = fresh_symbol_map(results, 1)
+        if len(fresh) != 1:
+            acc.violation(f"symbols:{name}", f"{name}: expected one fresh symbol, found {sorted(fresh)}", case)
+            return
+        (fname, fw), = fresh.items()
+        all_syms = dict(results[1])
+        all_syms[fname] = fw
+        results = (results[0], all_syms, results[2])
+        grid = [dict(g, t0=T1, **{fname: T1}) for g in grid]
     issues, stats = progcheck.check_program(spec, grid, want_coverage=True, results=results)
     acc.count("paths", stats["paths"])
     acc.count("pairs", stats["pairs"])
@@ -569,7 +607,7 @@ def run_shard(shard):
                 run_prog(acc, etch_spec(c["exists"]), SGRID[:2], f"etch:exists={c['exists']}", dict(c, kind2="state"))
             else:
                 grid = SGRID if c["name"] != "deal" else [g for g in SGRID if g["x"] < 2**128]  # balances above 2^128: documented modelling assumption
-                run_prog(acc, state_spec(c["name"], c["v"], c["target"], c["nested"]), grid, f"state:{c['name']}({c['v']})@{c['target']:#x}:nested={c['nested']}", dict(c, kind2="state"))
+                run_prog(acc, state_spec(c["name"], c["v"], c["target"], c["nested"]), grid, f"state:{c['name']}({c['v']})@{c['target'] if c['target'] == 'x' else hex(c['target'])}:nested={c['nested']}", dict(c, kind2="state"))
         acc.sample({"state_case": shard["cases"][0]})
     else:
         for c in shard["cases"]:
